@@ -61,7 +61,10 @@ impl ZVal {
 pub fn check_publish(vals: &[ZVal], rep: &mut Report, st: &mut ExpStats) {
     let tname = if vals.len() == 1 { vals[0].type_name() } else { "zkir.mixed".to_string() };
     let sig = format!("C08/{tname}/publish");
-    let wit = json!({"zkir_values": format!("{vals:?}")});
+    let wit = json!({"zkir": vals.iter().map(|v| match v {
+        ZVal::One(v) => json!({"one": format!("{v:?}")}),
+        ZVal::Bytes(b) => json!({"bytes": hex::encode(b)}),
+    }).collect::<Vec<_>>()});
     let mut prog = vec![];
     let mut witness: HashMap<&'static str, IrValue> = HashMap::new();
     let mut names = vec![];
@@ -114,4 +117,18 @@ pub fn check_publish(vals: &[ZVal], rep: &mut Report, st: &mut ExpStats) {
         let pos = driver::pick_positions(1, expected.len(), 8);
         driver::edits(&sig, k, &circuit, &mut h, &[], &expected, &pos, &wit, rep, st);
     }
+}
+
+/// inverse of the witness form written by `check_publish` (replay)
+pub fn parse(j: &serde_json::Value) -> Option<Vec<ZVal>> {
+    j.as_array()?
+        .iter()
+        .map(|e| {
+            if let Some(o) = e.get("one").and_then(|o| o.as_str()) {
+                Val::parse(o).map(ZVal::One)
+            } else {
+                e.get("bytes").and_then(|b| b.as_str()).and_then(|h| hex::decode(h).ok()).map(ZVal::Bytes)
+            }
+        })
+        .collect()
 }
